@@ -57,6 +57,27 @@ def render_all(obj) -> dict:
     return out
 
 
+def render_one(obj, key: str) -> str:
+    """the rendering render_all files under `key` (a context name, name/param, or str), and nothing else"""
+    from pypika_tortoise.terms import Parameterizer
+
+    if key == "str":
+        try:
+            return str(obj)
+        except Exception as ex:  # noqa
+            return "EXC:" + type(ex).__name__
+    d, _, mode = key.partition("/")
+    ctx = ctxs()[d]
+    try:
+        if mode == "param":
+            p = Parameterizer()
+            sql = obj.get_sql(ctx.copy(parameterizer=p))
+            return sql + " || " + repr(p.values)
+        return obj.get_sql(ctx)
+    except Exception as ex:  # noqa
+        return "EXC:" + type(ex).__name__
+
+
 def digest(obs: dict) -> str:
     h = hashlib.sha1()
     for k in sorted(obs):
